@@ -15,6 +15,11 @@ import (
 
 	"github.com/octohelm/gengo/pkg/gengo"
 	"github.com/octohelm/gengo/pkg/gengo/snippet"
+
+	_ "github.com/octohelm/gengo/devpkg/deepcopygen"
+	_ "github.com/octohelm/gengo/devpkg/defaultergen"
+	_ "github.com/octohelm/gengo/devpkg/partialstruct"
+	_ "github.com/octohelm/gengo/devpkg/runtimedocgen"
 )
 
 // GenSpec selects one recording generator.
@@ -290,6 +295,12 @@ func build[N namer](s GenSpec) gengo.Generator {
 
 func BuildGen(s GenSpec) (gengo.Generator, error) {
 	switch s.Name {
+	case "runtimedoc", "deepcopy", "partialstruct", "defaulter":
+		// the real sample generators of gengo's devpkg (registered by their init functions)
+		if gs := gengo.GetRegisteredGenerators(s.Name); len(gs) == 1 {
+			return gs[0], nil
+		}
+		return nil, fmt.Errorf("generator %q is not registered", s.Name)
 	case "a":
 		return build[nA](s), nil
 	case "b":
